@@ -5,7 +5,8 @@ with a real renderer into a scratch directory; return the produced files.
 import os, shutil, tempfile, importlib
 from vp import core, state
 
-RENDERERS = {'HTML5': ('plasTeX.Renderers.HTML5', '.html'), 'XHTML': ('plasTeX.Renderers.XHTML', '.html')}
+RENDERERS = {'HTML5': ('plasTeX.Renderers.HTML5', '.html'), 'XHTML': ('plasTeX.Renderers.XHTML', '.html'),
+             'Text': ('plasTeX.Renderers.Text', '.txt')}
 
 
 class RenderError(Exception):
